@@ -22,7 +22,9 @@ class UseSetLiteral(SimpleCodemod, NameResolutionMixin):
         match original_node.func:
             case cst.Name("set"):
                 if self.is_builtin_function(original_node):
-                    match original_node.args:
+                    # the elements of the updated node: they may hold rewritten
+                    # nested calls, which the original node would discard
+                    match updated_node.args:
                         case [cst.Arg(value=cst.List(elements=elements))]:
                             self.report_change(original_node)
 
